@@ -259,7 +259,11 @@ func c20ChildMain() {
 		if e, err2 := strconv.Atoi(os.Getenv(c20EnvExpect)); err2 != nil || e < 1 || !proto.Equal(as.GetClientConfPtr(), c20Config(e)) {
 			verdict = "DIFF"
 		}
-		say("L ok %s %d", verdict, as.GetGeneration())
+		sum := "unmarshalable"
+		if b, merr := proto.Marshal(as.GetClientConfPtr()); merr == nil {
+			sum = fmt.Sprintf("%x", sha256.Sum256(b))
+		}
+		say("L ok %s %d %s", verdict, as.GetGeneration(), sum)
 	case errors.Is(err, fs.ErrNotExist):
 		say("L absent")
 	default:
@@ -292,11 +296,22 @@ func c20ChildMain() {
 			a, _ := strconv.Atoi(f[1])
 			b, _ := strconv.Atoi(f[2])
 			for k := a; k <= b; k++ {
-				force = !c20ChildStore(as, k, force || (k == a && has("full")), false, say)
+				force = !c20ChildStore(as, k, force || (k == a && has("full")), false, "", say)
 			}
-		case "store": // store k [full] [bad]
+		case "store": // store k [full] [bad] [op=<setter>]
 			k, _ := strconv.Atoi(f[1])
-			force = !c20ChildStore(as, k, force || has("full"), has("bad"), say)
+			override := ""
+			for _, x := range f[2:] {
+				if strings.HasPrefix(x, "op=") {
+					override = x[3:]
+				}
+			}
+			if override != "" {
+				// an explicitly chosen setter applied to whatever the memory holds (the supervisor knows: it is what is on disk)
+				force = !c20ChildStore(as, k, false, false, override, say)
+			} else {
+				force = !c20ChildStore(as, k, force || has("full"), has("bad"), "", say)
+			}
 		case "rlimit": // rlimit nofile|fsize <n> [die] | rlimit restore
 			switch f[1] {
 			case "nofile", "fsize":
@@ -350,10 +365,13 @@ func c20ChildMain() {
 }
 
 // c20ChildStore performs store k through the real API and reports it; false when the API returned an error.
-func c20ChildStore(as *assets, k int, full, bad bool, say func(string, ...interface{})) bool {
+func c20ChildStore(as *assets, k int, full, bad bool, override string, say func(string, ...interface{})) bool {
 	op := c20Op(k)
 	if full || bad {
 		op = "SetClientConf"
+	}
+	if override != "" {
+		op = override
 	}
 	// everything is prepared BEFORE the B line: between B and A there is only the API call
 	var conf *pb.ClientConf
@@ -391,7 +409,8 @@ func c20ChildStore(as *assets, k int, full, bad bool, say func(string, ...interf
 	}
 	if err == nil {
 		say("A %d ok", k)
-		return true
+		// after an explicitly chosen partial setter the memory is not c20Config(k): the next numbered store is a whole-ClientConf one
+		return override == "" || op == "SetClientConf"
 	}
 	now := as.GetClientConfPtr()
 	memcheck := "na"
@@ -723,39 +742,49 @@ func (s *c20Sup) want(k int) []byte {
 // configuration being stored (number k; k == 0: nothing is being stored).  It returns the disk state with
 // Num filled in when it is a numbered configuration, and a non-empty class when it is neither.
 func (s *c20Sup) judge(now, prev c20Disk, k int) (c20Disk, string) {
-	if now.Absent {
-		if prev.Absent {
-			return now, ""
-		}
-		return now, "file-gone"
-	}
-	if !prev.Absent && bytes.Equal(now.Bytes, prev.Bytes) {
-		now.Num = prev.Num
-		return now, ""
-	}
 	var wantNew []byte
 	if k > 0 {
 		wantNew = s.want(k)
-		if bytes.Equal(now.Bytes, wantNew) {
-			now.Num = k
-			return now, ""
+	}
+	now, class, isNew := s.judgeBytes(now, prev, wantNew)
+	if isNew {
+		now.Num = k
+	}
+	return now, class
+}
+
+// judgeBytes is judge with the new configuration given as its marshalled bytes (nil: nothing is being stored).
+func (s *c20Sup) judgeBytes(now, prev c20Disk, wantNew []byte) (c20Disk, string, bool) {
+	if now.Absent {
+		if prev.Absent {
+			return now, "", false
 		}
+		return now, "file-gone", false
+	}
+	if wantNew != nil && bytes.Equal(now.Bytes, wantNew) {
+		return now, "", true
+	}
+	if !prev.Absent && bytes.Equal(now.Bytes, prev.Bytes) {
+		now.Num = prev.Num
+		return now, "", false
 	}
 	// not byte-identical: does it parse, and is it the same configuration encoded differently?
 	var got pb.ClientConf
 	perr := proto.Unmarshal(now.Bytes, &got)
 	if perr == nil {
-		if k > 0 && proto.Equal(&got, c20Config(k)) {
-			s.rec.Count("equal_but_encoded_differently", 1)
-			now.Num = k
-			return now, ""
+		if wantNew != nil {
+			var nw pb.ClientConf
+			if proto.Unmarshal(wantNew, &nw) == nil && proto.Equal(&got, &nw) {
+				s.rec.Count("equal_but_encoded_differently", 1)
+				return now, "", true
+			}
 		}
 		if !prev.Absent {
 			var old pb.ClientConf
 			if proto.Unmarshal(prev.Bytes, &old) == nil && proto.Equal(&got, &old) {
 				s.rec.Count("equal_but_encoded_differently", 1)
 				now.Num = prev.Num
-				return now, ""
+				return now, "", false
 			}
 		}
 	}
@@ -765,16 +794,51 @@ func (s *c20Sup) judge(now, prev c20Disk, k int) (c20Disk, string) {
 	}
 	switch {
 	case len(now.Bytes) == 0:
-		return now, "empty-file"
+		return now, "empty-file", false
 	case isPrefix(wantNew):
-		return now, "truncated-new"
+		return now, "truncated-new", false
 	case !prev.Absent && isPrefix(prev.Bytes):
-		return now, "truncated-old"
+		return now, "truncated-old", false
+	case wantNew != nil && len(now.Bytes) > len(wantNew) && bytes.Equal(now.Bytes[:len(wantNew)], wantNew):
+		return now, "new-followed-by-stale-bytes", false
 	case perr != nil:
-		return now, "unparseable"
+		return now, "unparseable", false
 	default:
-		return now, "parses-but-neither-old-nor-new"
+		return now, "parses-but-neither-old-nor-new", false
 	}
+}
+
+// c20Setter applies to conf what the setter op does when called for store k (the supervisor's reference for a
+// setter applied to an arbitrary, known starting configuration).
+func (s *c20Sup) expectAfter(disk c20Disk, op string, k int) []byte {
+	if op == "SetClientConf" {
+		return s.want(k)
+	}
+	var c pb.ClientConf
+	if disk.Absent || proto.Unmarshal(disk.Bytes, &c) != nil {
+		return nil
+	}
+	switch op {
+	case "SetGeneration":
+		g := c20Gen(k)
+		c.Generation = &g
+	case "SetDecoys":
+		if c.DecoyList == nil {
+			c.DecoyList = &pb.DecoyList{}
+		}
+		c.DecoyList.TlsDecoys = c20Decoys(k)
+	case "SetPubkey":
+		c.DefaultPubkey = c20Key("pubkey", k)
+	case "SetPhantomSubnets":
+		c.PhantomSubnetsList = c20Subnets(k)
+	default:
+		return nil
+	}
+	b, err := proto.Marshal(&c)
+	if err != nil {
+		return nil
+	}
+	return b
 }
 
 // leftovers lists (and removes) everything in dir except the ClientConf file: the temporary files a killed
